@@ -143,3 +143,15 @@ add("C04", "exploration", "property-based testing (Hypothesis) + exhaustive mask
     "replicated FlowIR) is excluded by signature.",
     "Option values limited to what the package schema accepts; single variable file; bool options given through a "
     "reference are only type-checked.", "DESIGN.md section 3, C04")
+
+add("C05", "exploration", "property-based testing (Hypothesis): grammar-generated DoWhile documents unrolled step by "
+    "step on a real instance (k up to 13 quick / 25 thorough); independent loop model as oracle after every iteration",
+    "DoWhile documents (1-4 looped components over <=2 loop stages, replication/aggregation inside the loop, input and "
+    "loop bindings, condition on stdout or file, import stage 0-2, outside consumers using ref/output/copy/loopref/"
+    "loopoutput, optional reload from disk, two loops interleaved incl. restart) are instantiated iteration by iteration "
+    "the way the Controller does; after every step node set, per-instance references/predecessors, placeholder 'latest', "
+    "currentIteration/currentCondition, DataReference.resolve() of outside references and :loopref order are compared with "
+    "an independent model. Two anchor workflows always reach k>=12.",
+    "Letters-only non-overlapping names, non-replicated loop-binding/condition producers, disjoint stage ranges for two "
+    "loops; iterations are instantiated by a driver mirroring Controller._instantiate_next_dowhile_iteration.",
+    "DESIGN.md section 3, C05")
